@@ -60,14 +60,14 @@ Proof.
     + specialize (Hs eq_refl). subst H.
       destruct (dc_find dc (n_metric s)) as [c|] eqn:Ef.
       * rewrite (Hv _ _ Ef). fold (sim_distances N s (octx cx)).
-        destruct (simnbr_predict N aeqb RG s g (octx cx) (sim_distances N s (octx cx)) (o_knn op) (o_sizes op)) as [[l|] g1];
+        destruct (simnbr_predict N aeqb RG s (k_quick rae) (stat_rewards s rae) g (octx cx) (sim_distances N s (octx cx)) (o_knn op) (o_sizes op)) as [[l|] g1];
           (split; [reflexivity | exact Hv]).
-      * destruct (simnbr_predict N aeqb RG s g (octx cx) (sim_distances N s (octx cx)) (o_knn op) (o_sizes op)) as [[l|] g1];
+      * destruct (simnbr_predict N aeqb RG s (k_quick rae) (stat_rewards s rae) g (octx cx) (sim_distances N s (octx cx)) (o_knn op) (o_sizes op)) as [[l|] g1];
           (split; [reflexivity|]; intros m' c' Hf; rewrite dc_find_app in Hf;
            destruct (dc_find dc m') as [x|] eqn:Ex; [injection Hf as <-; apply (Hv _ _ Ex) |];
            destruct (metric_eqb (n_metric s) m') eqn:Em; [|discriminate]; injection Hf as <-;
            apply metric_eqb_eq in Em; subst m'; reflexivity).
-    + destruct (simnbr_predict N aeqb RG s g (octx cx) [] (o_knn op) (o_sizes op)) as [[l|] g1]; (split; [reflexivity | exact Hv]).
+    + destruct (simnbr_predict N aeqb RG s (k_quick rae) (stat_rewards s rae) g (octx cx) [] (o_knn op) (o_sizes op)) as [[l|] g1]; (split; [reflexivity | exact Hv]).
 Qed.
 
 Fixpoint sim_query_each (bs : list sbandit) cx n lo hi (orcs : list (@borc R A)) :=
@@ -93,8 +93,8 @@ Lemma dc_valid_nil H rows : dc_valid H rows [].
 Proof. intros m c Hf. discriminate. Qed.
 
 (* the history invariant: training and online updates keep the stored contexts of all replaced bandits equal *)
-Lemma sim_train_history (m : mab) ds rs cx orc :
-  shares_history (octx cx) (fst (sim_train N aeqb RG m ds rs cx orc)).
+Lemma sim_train_history quick (m : mab) ds rs cx orc :
+  shares_history (octx cx) (fst (sim_train N aeqb RG quick m ds rs cx orc)).
 Proof.
   unfold sim_train. destruct (m_imp m) as [c|l|s|k|t];
     try (destruct (step N aeqb RG m (Fit ds rs cx orc)) as [m1 o]; exact I).
@@ -135,13 +135,13 @@ Definition lp_sim_ok (l : lp) : Prop :=
   | LLin t => lin_keys_ok t /\ l_kind t <> RTs
   end.
 
-Theorem sim_predict_refines_library (s : nbr) g cx orcs sizes : lp_sim_ok (n_lp s) ->
-  let (r, g1) := simnbr_predict N aeqb RG s g cx (sim_distances N s cx) orcs sizes in
+Theorem sim_predict_refines_library (s : nbr) quick raw g cx orcs sizes : lp_sim_ok (n_lp s) ->
+  let (r, g1) := simnbr_predict N aeqb RG s quick raw g cx (sim_distances N s cx) orcs sizes in
   nbr_predict N aeqb RG s g cx orcs sizes true = (option_map (@preds_of R A) r, g1).
 Proof.
   destruct (n_lp s) as [t|t] eqn:El; intros [H1 H2].
-  - apply (sim_predict_refines_library_cf N aeqb RG aeqb_spec Hrng s t g cx orcs sizes El H1 H2).
-  - apply (sim_predict_refines_library_linear N aeqb RG aeqb_spec Hrng s t g cx orcs sizes El H1 H2).
+  - apply (sim_predict_refines_library_cf N aeqb RG aeqb_spec Hrng s t quick raw g cx orcs sizes El H1 H2).
+  - apply (sim_predict_refines_library_linear N aeqb RG aeqb_spec Hrng s t quick raw g cx orcs sizes El H1 H2).
 Qed.
 
 Lemma lp_binarize_sim_ok (l : lp) ds rs : lp_sim_ok l -> lp_sim_ok (fst (lp_binarize l ds rs)).
@@ -181,28 +181,28 @@ Proof.
   assert (Hcache : (if uses_cache s then sim_distances N s cx else []) = sim_distances N s cx \/ uses_cache s = false).
   { destruct (uses_cache s); auto. }
   assert (Hp : forall cache, (cache = sim_distances N s cx \/ uses_cache s = false) ->
-               simnbr_predict N aeqb RG s g cx cache (o_knn op) (o_sizes op)
-               = simnbr_predict N aeqb RG s g cx (sim_distances N s cx) (o_knn op) (o_sizes op)).
+               simnbr_predict N aeqb RG s (k_quick rae) (stat_rewards s rae) g cx cache (o_knn op) (o_sizes op)
+               = simnbr_predict N aeqb RG s (k_quick rae) (stat_rewards s rae) g cx (sim_distances N s cx) (o_knn op) (o_sizes op)).
   { intros cache [-> | Hu]; [reflexivity|].
     (* LSH never reads the cache *)
     unfold uses_cache in Hu. destruct (n_kind s) as [r|k|nd nt] eqn:Ek; try discriminate.
     unfold simnbr_predict. destruct (draw_z RG g (RqRandint 2147483647 (length cx))) as [seeds g1]. f_equal.
     f_equal. clear -Ek.
-    assert (Hrows : forall rows seeds l c1 c2 orcs, simnbr_rows N aeqb RG s l seeds rows c1 orcs = simnbr_rows N aeqb RG s l seeds rows c2 orcs).
-    { induction rows as [|row rows IH]; intros seeds0 l c1 c2 orcs; destruct seeds0 as [|sd sds]; try reflexivity.
+    assert (Hrows : forall q rw rows seeds l c1 c2 orcs, simnbr_rows N aeqb RG s l q rw seeds rows c1 orcs = simnbr_rows N aeqb RG s l q rw seeds rows c2 orcs).
+    { intros q rw. induction rows as [|row rows IH]; intros seeds0 l c1 c2 orcs; destruct seeds0 as [|sd sds]; try reflexivity.
       cbn [simnbr_rows].
-      assert (E : simnbr_row N aeqb RG s l sd row (hd [] c1) (hd [] orcs) = simnbr_row N aeqb RG s l sd row (hd [] c2) (hd [] orcs)).
+      assert (E : simnbr_row N aeqb RG s l q rw sd row (hd [] c1) (hd [] orcs) = simnbr_row N aeqb RG s l q rw sd row (hd [] c2) (hd [] orcs)).
       { unfold simnbr_row, sim_neighborhood. rewrite Ek. reflexivity. }
-      rewrite E. destruct (simnbr_row N aeqb RG s l sd row (hd [] c2) (hd [] orcs)) as [[r0 l']|]; [|reflexivity].
+      rewrite E. destruct (simnbr_row N aeqb RG s l q rw sd row (hd [] c2) (hd [] orcs)) as [[r0 l']|]; [|reflexivity].
       rewrite (IH sds l' (tl c1) (tl c2) (tl orcs)). reflexivity. }
     generalize (o_knn op) as orcs. generalize (sim_distances N s cx) as c2. revert seeds cx cache.
     induction (o_sizes op) as [|k sizes IH]; intros seeds cx c1 c2 orcs; [reflexivity|].
-    cbn [chunks combine map]. rewrite (Hrows (firstn k cx) (firstn k seeds) (n_lp s) (firstn k c1) (firstn k c2) (firstn k orcs)).
+    cbn [chunks combine map]. rewrite (Hrows (k_quick rae) (stat_rewards s rae) (firstn k cx) (firstn k seeds) (n_lp s) (firstn k c1) (firstn k c2) (firstn k orcs)).
     f_equal. apply IH. }
   destruct (uses_cache s) eqn:Eu; cbn [dc_find app];
     [| rewrite (Hp [] (or_intror eq_refl))];
-    (pose proof (sim_predict_refines_library s g cx (o_knn op) (o_sizes op) Hok) as Hr;
-     destruct (simnbr_predict N aeqb RG s g cx (sim_distances N s cx) (o_knn op) (o_sizes op)) as [r g1];
+    (pose proof (sim_predict_refines_library s (k_quick rae) (stat_rewards s rae) g cx (o_knn op) (o_sizes op) Hok) as Hr;
+     destruct (simnbr_predict N aeqb RG s (k_quick rae) (stat_rewards s rae) g cx (sim_distances N s cx) (o_knn op) (o_sizes op)) as [r g1];
      cbn [step lib_of m_fitted negb predict_args_ok m_imp imp_query octx m_rng];
      rewrite Hr; destruct r as [l|]; cbn [option_map];
      [ rewrite lefts_preds, out_arms_shape; split; [reflexivity|]; eexists; split; reflexivity
@@ -254,12 +254,12 @@ Qed.
 Definition fresh_nbr (s : nbr) : Prop :=
   s = nbr_init (n_kind s) (n_metric s) (n_nnprob s) (n_kf_newarm0 s) (n_arms s) (n_lp s).
 
-Theorem sim_train_refines_api (m : mab) (s : nbr) ds rs cx orc :
+Theorem sim_train_refines_api quick (m : mab) (s : nbr) ds rs cx orc :
   m_imp m = INbr s -> fresh_nbr s -> fit_args_ok N m ds rs cx = true ->
-  let (b, ok) := sim_train N aeqb RG m ds rs cx orc in
+  let (b, ok) := sim_train N aeqb RG quick m ds rs cx orc in
   let (m1, o) := step N aeqb RG m (Fit ds rs cx orc) in
   ok = true /\ o = ODone /\
-  exists s1 g1, b = SNbr s1 g1 [] /\ m1 = lib_of s1 g1 /\ n_lp s1 = fst (lp_binarize (n_lp s) ds rs).
+  exists s1 g1, b = SNbr s1 g1 (mkNbk [] rs quick) /\ m1 = lib_of s1 g1 /\ n_lp s1 = fst (lp_binarize (n_lp s) ds rs).
 Proof.
   intros Ei Hf Ha. unfold sim_train. rewrite Ei. rewrite <- Hf.
   cbn [step]. rewrite Ha. rewrite Ei. cbn [train_shape_ok negb imp_fit].
@@ -272,32 +272,32 @@ Theorem sim_update_refines_api (s : nbr) g rae ds rs cx orc :
   fit_args_ok N (lib_of s g) ds rs (Some cx) = true -> width_ok (n_cx s) cx = true ->
   let (b, ok) := sim_update N aeqb RG (SNbr s g rae) ds rs (Some cx) orc in
   let (m1, o) := step N aeqb RG (lib_of s g) (PartialFit ds rs (Some cx) orc) in
-  ok = true /\ o = ODone /\ b = SNbr (nbr_partial_fit N s ds rs cx) g rae /\ m1 = lib_of (nbr_partial_fit N s ds rs cx) g.
+  ok = true /\ o = ODone /\ (exists rae', b = SNbr (nbr_partial_fit N s ds rs cx) g rae') /\ m1 = lib_of (nbr_partial_fit N s ds rs cx) g.
 Proof.
   intros Ha Hw. cbn [sim_update octx]. cbn [step]. rewrite Ha.
   cbn [lib_of m_imp m_fitted train_shape_ok octx m_rng]. rewrite Hw. cbn [negb imp_partial_fit octx].
-  repeat split.
+  split; [reflexivity|]. split; [reflexivity|]. split; [eexists; reflexivity | reflexivity].
 Qed.
 
 (* ---- (3) the offline driver: a replaced neighbourhood bandit reports the public API's predictions ---------- *)
-Theorem offline_neighbourhood_predictions_are_the_public_api's (m : mab) (s : nbr) (train test : @batch R A) tcx qcx orcT op oe :
+Theorem offline_neighbourhood_predictions_are_the_public_api's quick (m : mab) (s : nbr) (train test : @batch R A) tcx qcx orcT op oe :
   m_imp m = INbr s -> fresh_nbr s -> lp_sim_ok (n_lp s) ->
   b_cx train = Some tcx -> b_cx test = Some qcx ->
   fit_args_ok N m (b_ds train) (b_rs train) (b_cx train) = true ->
-  let (b, _) := sim_train N aeqb RG m (b_ds train) (b_rs train) (b_cx train) orcT in
+  let (b, _) := sim_train N aeqb RG quick m (b_ds train) (b_rs train) (b_cx train) orcT in
   let '(_, r) := sim_query1 b (b_cx test) (length (b_ds test)) O (length (b_ds test)) op oe in
   let (m1, _) := step N aeqb RG m (Fit (b_ds train) (b_rs train) (b_cx train) orcT) in
   let (_, o) := step N aeqb RG m1 (Predict (b_cx test) op) in
   option_map fst r = out_arms o.
 Proof.
   intros Ei Hf Hok Et Eq Ha.
-  pose proof (sim_train_refines_api m s (b_ds train) (b_rs train) (b_cx train) orcT Ei Hf Ha) as Ht.
-  destruct (sim_train N aeqb RG m (b_ds train) (b_rs train) (b_cx train) orcT) as [b ok].
+  pose proof (sim_train_refines_api quick m s (b_ds train) (b_rs train) (b_cx train) orcT Ei Hf Ha) as Ht.
+  destruct (sim_train N aeqb RG quick m (b_ds train) (b_rs train) (b_cx train) orcT) as [b ok].
   destruct (step N aeqb RG m (Fit (b_ds train) (b_rs train) (b_cx train) orcT)) as [m1 o1].
   destruct Ht as (_ & _ & s1 & g1 & -> & -> & Hl). rewrite Eq.
   assert (Hok1 : lp_sim_ok (n_lp s1)) by (rewrite Hl; apply lp_binarize_sim_ok; exact Hok).
-  pose proof (sim_query_refines_api s1 g1 [] qcx (length (b_ds test)) O (length (b_ds test)) op oe Hok1) as Hq.
-  destruct (sim_query1 (SNbr s1 g1 []) (Some qcx) (length (b_ds test)) 0 (length (b_ds test)) op oe) as [b' r].
+  pose proof (sim_query_refines_api s1 g1 (mkNbk [] (b_rs train) quick) qcx (length (b_ds test)) O (length (b_ds test)) op oe Hok1) as Hq.
+  destruct (sim_query1 (SNbr s1 g1 (mkNbk [] (b_rs train) quick)) (Some qcx) (length (b_ds test)) 0 (length (b_ds test)) op oe) as [b' r].
   destruct (step N aeqb RG (lib_of s1 g1) (Predict (Some qcx) op)) as [m2 o2]. exact (proj1 Hq).
 Qed.
 
@@ -423,9 +423,10 @@ Proof.
     cbn [report_app].
     assert (Hok' : lp_sim_ok (n_lp (nbr_partial_fit N s (b_ds bt) (b_rs bt) cx))).
     { rewrite nbr_partial_fit_lp. apply lp_binarize_sim_ok. exact Hok. }
-    specialize (IH (nbr_partial_fit N s (b_ds bt) (b_rs bt) cx) g1 rae' (p0 ++ p) (e0 ++ e1) (lo + length (b_ds bt)) (tl orcs) Hok').
+    set (bk' := mkNbk (k_rows rae') (k_raw rae' ++ b_rs bt) (k_quick rae')).
+    specialize (IH (nbr_partial_fit N s (b_ds bt) (b_rs bt) cx) g1 bk' (p0 ++ p) (e0 ++ e1) (lo + length (b_ds bt)) (tl orcs) Hok').
     unfold lib_of in *.
-    destruct (sim_online1 (SNbr (nbr_partial_fit N s (b_ds bt) (b_rs bt) cx) g1 rae') (Some (p0 ++ p, e0 ++ e1)) (lo + length (b_ds bt)) rest (tl orcs)) as [b rep].
+    destruct (sim_online1 (SNbr (nbr_partial_fit N s (b_ds bt) (b_rs bt) cx) g1 bk') (Some (p0 ++ p, e0 ++ e1)) (lo + length (b_ds bt)) rest (tl orcs)) as [b rep].
     destruct (api_online_predict_only (mkMab (INbr (nbr_partial_fit N s (b_ds bt) (b_rs bt) cx)) true g1) rest (tl orcs)) as [m4 r].
     destruct r as [p'|]; cbn [option_map]; [|exact I]. rewrite IH, app_assoc. reflexivity.
 Qed.
@@ -523,9 +524,9 @@ Proof.
 Qed.
 
 (* after _train_bandits every replaced bandit stores the training contexts *)
-Theorem trained_bandits_share_the_history (ms : list mab) (train : @batch R A) (cx : @ctxs R) orcs :
+Theorem trained_bandits_share_the_history quick (ms : list mab) (train : @batch R A) (cx : @ctxs R) orcs :
   b_cx train = Some cx ->
-  Forall (shares_history cx) (map fst (sim_train_all N aeqb RG ms train orcs)).
+  Forall (shares_history cx) (map fst (sim_train_all N aeqb RG quick ms train orcs)).
 Proof.
   intros Ecx. unfold sim_train_all. generalize (orcs ++ repeat orc0 (length ms)) as os.
   induction ms as [|m t IH]; intros os; [constructor|].
